@@ -50,6 +50,7 @@ type State struct {
 	pathID  int
 	trace   []string
 	noClosed bool
+	prevVals map[*ssa.BasicBlock]map[string]Term // loop head -> values of named variables right after the havoc
 	epoch   int // >0 after a havoc-all: untouched heap variables are unknown, not initial
 }
 
@@ -58,6 +59,7 @@ func newState() *State {
 		vals: map[ssa.Value]Term{}, locs: map[ssa.Value]Loc{}, tuples: map[ssa.Value][]Term{},
 		iters: map[ssa.Value]*iterState{}, closures: map[string]closureInfo{}, heap: map[string]string{},
 		env: map[string]ssa.Value{}, envAddr: map[string]bool{}, inLoop: map[*ssa.BasicBlock]bool{},
+		prevVals: map[*ssa.BasicBlock]map[string]Term{},
 	}
 }
 
@@ -98,6 +100,10 @@ func (s *State) fork() *State {
 		n.inLoop[k] = v
 	}
 	n.epoch = s.epoch
+	n.prevVals = make(map[*ssa.BasicBlock]map[string]Term, len(s.prevVals))
+	for k, v := range s.prevVals {
+		n.prevVals[k] = v
+	}
 	n.pathID = s.pathID
 	n.consts = s.consts[:len(s.consts):len(s.consts)]
 	n.asserts = s.asserts[:len(s.asserts):len(s.asserts)]
